@@ -478,7 +478,12 @@ impl Prop for C16 {
                 4..=7 => rng.urange(201, 1200),
                 8 => rng.urange(1201, 5000),
                 _ => {
-                    if rng.chance(0.02) {
+                    if rng.chance(0.2) {
+                        // exact multiples of a power of two, and their neighbours: block sizes (k * 2^j - 1, k * 2^j, k * 2^j + 1)
+                        let j = rng.urange(10, 20);
+                        let k = rng.urange(1, 4);
+                        (((k << j) + rng.urange(0, 2)).saturating_sub(1)).min(5_000_000)
+                    } else if rng.chance(0.02) {
                         rng.urange(1_048_570, 5_000_000) // millions of elements: caps and block sizes in the 2^20..2^22 range
                     } else if rng.chance(0.15) {
                         rng.urange(5001, 150_000) // far beyond any block / cap size a rewrite might use
